@@ -4,6 +4,7 @@ import KtVerif.Model.Vectors
 import KtVerif.Model.Fasta
 import KtVerif.DriverSched
 import KtVerif.Model.MinOut
+import KtVerif.Spec.Cli
 /-!
 # Driver glue (trusted, thin): parsing of request lines, printing of answers.
 
@@ -175,6 +176,30 @@ def idRecsOf (s : String) : List (List Nat × List Nat) :=
     | [a, b] => some (unhex a, unhex b)
     | _ => none
 
+def presetOf (s : String) : VecPreset := if s = "csv" then .csv else if s = "tsv" then .tsv else .spc
+def optOf (s : String) : Option Nat := if s = "~" then none else s.toNat?
+def fmtDecision : Decision → String
+  | .run => "run"
+  | .refuseRange o => s!"refuse-range:{o}"
+  | .refuseMsg m => s!"refuse-msg:{m}"
+
+def answerCli : List String → Option String
+  | ["cli", "oligo", k, counts, header, preset, t] =>
+    some (fmtDecision (cliDecide (.oligo k.toNat! (counts == "1") (header == "1") (presetOf preset) t.toNat!)) ++ "|" ++ hex (delimOf (presetOf preset)))
+  | ["cli", "cgr", k, counts, v, t] =>
+    some (fmtDecision (cliDecide (.cgr (optOf k) (counts == "1") (optOf v) t.toNat!)) ++ "|" ++
+      toString (match optOf k, optOf v with
+        | _, some s => s
+        | some k, none => defaultVecSize k
+        | none, none => 1))
+  | ["cli", "cov", k, bs, bc, mem, counts, preset, t] =>
+    some (fmtDecision (cliDecide (.cov k.toNat! bs.toNat! bc.toNat! mem.toNat! (counts == "1") (presetOf preset) t.toNat!)) ++ "|" ++ hex (delimOf (presetOf preset)))
+  | ["cli", "min", m, w, preset, t] =>
+    some (fmtDecision (cliDecide (.min m.toNat! w.toNat! (if preset = "m2s" then .m2s else .s2m) t.toNat!)))
+  | ["cli", "ctr", k, mem, acgt, t] =>
+    some (fmtDecision (cliDecide (.ctr k.toNat! mem.toNat! (acgt == "1") t.toNat!)))
+  | _ => none
+
 def answerIo : List String → Option String
   | ["s2m", w, m, recs] =>
     let w := w.toNat!; let m := m.toNat!
@@ -245,7 +270,7 @@ def answerWords (c : Cache) : List String → Cache × String
     | some row =>
       (c, joinWith "|" ["ok", joinWith "," (row.map fun t => s!"{f64Bits t.1}:{f64Bits t.2.1}:{f64Bits t.2.2}")])
   | ws =>
-    match answerIo ws with
+    match (answerIo ws).orElse (fun _ => answerCli ws) with
     | some a => (c, a)
     | none =>
       match KT.DriverSched.answer ws with
